@@ -540,7 +540,10 @@ def concat_list(arrs):
             r = Ite(I(i) < I(offs[k + 1]), fs[k](I(i) - I(offs[k])), r)
         return r
     kind = arrs[0].kind
-    return SArr.fresh(offs[-1], at, kind, arrs[0].enc)
+    r = SArr.fresh(offs[-1], at, kind, arrs[0].enc)
+    # ghost: the parts (frozen content) - flatnonzero / boolean indexing with a concatenated mask is defined part by part
+    r.concat_parts = [SArr.fresh(l, f, a.kind) for a, f, l in zip(arrs, fs, lens)]
+    return r
 
 
 def np_delete(ip, a, idxs, lineno):
